@@ -415,4 +415,238 @@ theorem reach_hash_eq (H : Bytes → Bytes) {n : Nat} {t₁ t₂ : PT} (h₁ : R
     (h : ∀ q : List Nib, q.length = n → t₁.lookup q = t₂.lookup q) : t₁.hash H = t₂.hash H := by
   rw [reach_unique h₁ h₂ h]
 
+/-! ### 5. an independent construction of the canonical tree from the content -/
+
+/-- an entry with its key as nibbles -/
+abbrev NEntry := List Nib × Bytes × Nat
+
+/-- association-list lookup (first match) -/
+def alookup : List NEntry → List Nib → Option (Bytes × Nat)
+  | [], _ => none
+  | e :: es, q => if e.1 = q then some e.2 else alookup es q
+
+/-- the entries whose key starts with nibble `i`, with that nibble stripped -/
+def grp (es : List NEntry) (i : Nib) : List NEntry :=
+  es.filterMap (fun e => match e.1 with
+    | j :: ks => if j = i then some (ks, e.2) else none
+    | [] => none)
+
+/-- the canonical node with children `ch`: nothing, the sole child under a (merged) short node, or a branch -/
+def norm (ch : Nib → PT) : PT :=
+  if allNib.all (fun i => (ch i).isNone) then .none
+  else match PT.sole ch with
+    | some pos => PT.collapse ch pos
+    | none => .branch ch
+
+/-- the canonical tree of depth `n` for an association list: group on the first nibble, normalise -/
+def canonOf : Nat → List NEntry → PT
+  | 0, [] => .none
+  | 0, e :: _ => .value e.2.1 e.2.2
+  | n + 1, es => norm (fun i => canonOf n (grp es i))
+
+theorem alookup_grp (es : List NEntry) (i : Nib) (q : List Nib) : alookup (grp es i) q = alookup es (i :: q) := by
+  induction es with
+  | nil => simp [grp, alookup]
+  | cons e es ih =>
+    obtain ⟨k, r⟩ := e
+    cases k with
+    | nil =>
+      have : grp (([], r) :: es) i = grp es i := by simp [grp]
+      rw [this, ih]; simp [alookup]
+    | cons j ks =>
+      by_cases hj : j = i
+      · subst hj
+        have : grp ((j :: ks, r) :: es) j = (ks, r) :: grp es j := by simp [grp]
+        rw [this]
+        simp only [alookup, List.cons.injEq, true_and]
+        rw [ih]
+      · have : grp ((j :: ks, r) :: es) i = grp es i := by simp [grp, hj]
+        rw [this, ih]
+        simp [alookup, hj]
+
+theorem grp_length {n : Nat} {es : List NEntry} (h : ∀ e ∈ es, e.1.length = n + 1) (i : Nib) :
+    ∀ e ∈ grp es i, e.1.length = n := by
+  intro e he
+  simp only [grp, List.mem_filterMap] at he
+  obtain ⟨e0, hm, heq⟩ := he
+  have hl := h e0 hm
+  obtain ⟨k, r⟩ := e0
+  cases k with
+  | nil => simp at heq
+  | cons j ks =>
+    simp only at heq
+    split at heq
+    · simp only [Option.some.injEq] at heq
+      subst heq
+      simpa using hl
+    · simp at heq
+
+theorem canon_collapse {ch : Nib → PT} {pos : Nib} (h : Canon (ch pos)) : Canon (PT.collapse ch pos) := by
+  unfold PT.collapse
+  split
+  · rename_i ck cc heq
+    rw [heq] at h
+    simpa [Canon] using h
+  · simpa [Canon] using h
+
+theorem norm_spec {n : Nat} {ch : Nib → PT} (hu : ∀ i, Uniform n (ch i)) (hc : ∀ i, Canon (ch i)) :
+    Uniform (n + 1) (norm ch) ∧ Canon (norm ch) ∧ ∀ q, (norm ch).lookup q = (PT.branch ch).lookup q := by
+  have hub : Uniform (n + 1) (.branch ch) := ⟨by omega, fun i => by simpa using hu i⟩
+  unfold norm
+  split
+  · rename_i hall
+    refine ⟨uniform_none _, canon_none, fun q => ?_⟩
+    have hn : ∀ i, ch i = .none := by
+      intro i
+      have := List.all_eq_true.mp hall i (List.mem_finRange i)
+      exact (PT.isNone_iff _).mp this
+    cases q with
+    | nil => simp [PT.lookup]
+    | cons j qs => rw [PT.lookup_branch_cons, hn j, PT.lookup_none, PT.lookup_none]
+  · rename_i hall
+    cases hs : PT.sole ch with
+    | some pos =>
+      obtain ⟨h1, h2⟩ := PT.collapse_spec hub hs
+      exact ⟨h1, canon_collapse (hc pos), h2⟩
+    | none =>
+      refine ⟨hub, ⟨?_, hc⟩, fun q => rfl⟩
+      have : ∃ i, ch i ≠ .none := by
+        apply Classical.byContradiction
+        intro hne
+        apply hall
+        refine List.all_eq_true.mpr (fun i _ => ?_)
+        apply (PT.isNone_iff _).mpr
+        apply Classical.byContradiction
+        intro hi
+        exact hne ⟨i, hi⟩
+      obtain ⟨i, hi⟩ := this
+      obtain ⟨j, hji, hj⟩ := sole_none_two hs hi
+      exact ⟨i, j, hji.symm, hi, hj⟩
+
+theorem canonOf_spec (n : Nat) (es : List NEntry) (h : ∀ e ∈ es, e.1.length = n) :
+    Uniform n (canonOf n es) ∧ Canon (canonOf n es) ∧
+      ∀ q : List Nib, q.length = n → (canonOf n es).lookup q = alookup es q := by
+  induction n generalizing es with
+  | zero =>
+    cases es with
+    | nil => exact ⟨uniform_none 0, canon_none, fun q _ => by simp [canonOf, PT.lookup, alookup]⟩
+    | cons e es =>
+      refine ⟨by simp [canonOf, Uniform], by simp [canonOf, Canon], fun q hq => ?_⟩
+      have hq0 : q = [] := List.eq_nil_of_length_eq_zero hq
+      have he : e.1 = [] := List.eq_nil_of_length_eq_zero (h e List.mem_cons_self)
+      subst hq0
+      simp [canonOf, PT.lookup, alookup, he]
+  | succ n ih =>
+    have ihs := fun i => ih (grp es i) (grp_length h i)
+    obtain ⟨h1, h2, h3⟩ := norm_spec (ch := fun i => canonOf n (grp es i)) (fun i => (ihs i).1) (fun i => (ihs i).2.1)
+    refine ⟨h1, h2, fun q hq => ?_⟩
+    show (norm _).lookup q = _
+    rw [h3]
+    cases q with
+    | nil => simp at hq
+    | cons j qs =>
+      rw [PT.lookup_branch_cons, (ihs j).2.2 qs (by simpa using hq), alookup_grp]
+
+theorem uniform_canonOf {n : Nat} {es : List NEntry} (h : ∀ e ∈ es, e.1.length = n) : Uniform n (canonOf n es) :=
+  (canonOf_spec n es h).1
+
+theorem canon_canonOf {n : Nat} {es : List NEntry} (h : ∀ e ∈ es, e.1.length = n) : Canon (canonOf n es) :=
+  (canonOf_spec n es h).2.1
+
+theorem lookup_canonOf {n : Nat} {es : List NEntry} (h : ∀ e ∈ es, e.1.length = n) {q : List Nib}
+    (hq : q.length = n) : (canonOf n es).lookup q = alookup es q :=
+  (canonOf_spec n es h).2.2 q hq
+
+/-- a canonical uniform tree is the canonical tree of any association list denoting the same map -/
+theorem eq_canonOf {n : Nat} {t : PT} {es : List NEntry} (hu : Uniform n t) (hc : Canon t)
+    (h : ∀ e ∈ es, e.1.length = n) (hl : ∀ q : List Nib, q.length = n → t.lookup q = alookup es q) :
+    t = canonOf n es :=
+  canon_unique hu hc (uniform_canonOf h) (canon_canonOf h) (fun q hq => by rw [hl q hq, lookup_canonOf h hq])
+
+/-! #### the tree is the canonical tree of its own entry list -/
+
+/-- key bytes back to nibbles -/
+def toNibs (k : Bytes) : List Nib := k.filterMap nibOf
+
+theorem toNibs_map_nb (s : List Nib) : toNibs (s.map nb) = s := by
+  induction s with
+  | nil => rfl
+  | cons x xs ih =>
+    unfold toNibs at ih ⊢
+    rw [List.map_cons, List.filterMap_cons, nibOf_nb]
+    simp only
+    rw [ih]
+
+/-- the live entries with their keys as nibbles -/
+def PT.entriesN (t : PT) : List NEntry := t.entries.map (fun e => (toNibs e.1, e.2))
+
+theorem mem_entriesN_iff {n : Nat} {t : PT} (hu : Uniform n t) (q : List Nib) (r : Bytes × Nat) :
+    (q, r) ∈ t.entriesN ↔ q.length = n ∧ t.lookup q = some r := by
+  obtain ⟨v, w⟩ := r
+  simp only [PT.entriesN, List.mem_map]
+  constructor
+  · rintro ⟨⟨k, v', w'⟩, hm, heq⟩
+    simp only [Prod.mk.injEq] at heq
+    obtain ⟨hk, rfl, rfl⟩ := heq
+    obtain ⟨key, hlen, rfl, hl⟩ := (mem_entries_iff hu k v' w').mp hm
+    rw [toNibs_map_nb] at hk
+    subst hk
+    exact ⟨hlen, hl⟩
+  · rintro ⟨hlen, hl⟩
+    exact ⟨(q.map nb, v, w), (mem_entries_iff hu _ v w).mpr ⟨q, hlen, rfl, hl⟩, by simp [toNibs_map_nb]⟩
+
+theorem alookup_some_mem {es : List NEntry} {q : List Nib} {r : Bytes × Nat} (h : alookup es q = some r) :
+    (q, r) ∈ es := by
+  induction es with
+  | nil => simp [alookup] at h
+  | cons e es ih =>
+    simp only [alookup] at h
+    split at h
+    · rename_i he
+      simp only [Option.some.injEq] at h
+      obtain ⟨k, r'⟩ := e
+      simp only at he h
+      subst he h
+      exact List.mem_cons_self
+    · exact List.mem_cons_of_mem _ (ih h)
+
+theorem alookup_none_not_mem {es : List NEntry} {q : List Nib} (h : alookup es q = none) (r : Bytes × Nat) :
+    (q, r) ∉ es := by
+  induction es with
+  | nil => simp
+  | cons e es ih =>
+    simp only [alookup] at h
+    split at h
+    · simp at h
+    · rename_i he
+      intro hm
+      rcases List.mem_cons.mp hm with rfl | hm
+      · exact he rfl
+      · exact ih h hm
+
+theorem lookup_eq_alookup_entriesN {n : Nat} {t : PT} (hu : Uniform n t) {q : List Nib} (hq : q.length = n) :
+    t.lookup q = alookup t.entriesN q := by
+  cases h : alookup t.entriesN q with
+  | some r => exact ((mem_entriesN_iff hu q r).mp (alookup_some_mem h)).2
+  | none =>
+    cases h2 : t.lookup q with
+    | none => rfl
+    | some r => exact absurd ((mem_entriesN_iff hu q r).mpr ⟨hq, h2⟩) (alookup_none_not_mem h r)
+
+/-- a canonical uniform tree is rebuilt from its entry list alone -/
+theorem eq_canonOf_entries {n : Nat} {t : PT} (hu : Uniform n t) (hc : Canon t) : t = canonOf n t.entriesN :=
+  eq_canonOf hu hc (fun e he => ((mem_entriesN_iff hu e.1 e.2).mp he).1)
+    (fun _ hq => lookup_eq_alookup_entriesN hu hq)
+
+/-- the root hash of a reachable trie is a function of its entry list -/
+theorem reach_hash_entries (H : Bytes → Bytes) {n : Nat} {t : PT} (h : Reach n t) :
+    t.hash H = (canonOf n t.entriesN).hash H := by
+  have := eq_canonOf_entries (reach_uniform_canon h).1 (reach_uniform_canon h).2
+  exact congrArg (PT.hash H) this
+
+/-- two canonical uniform trees with the same entry list are equal -/
+theorem canon_entries_unique {n : Nat} {t₁ t₂ : PT} (hu₁ : Uniform n t₁) (hc₁ : Canon t₁) (hu₂ : Uniform n t₂)
+    (hc₂ : Canon t₂) (h : t₁.entries = t₂.entries) : t₁ = t₂ := by
+  rw [eq_canonOf_entries hu₁ hc₁, eq_canonOf_entries hu₂ hc₂, PT.entriesN, PT.entriesN, h]
+
 end Verif.Wmpt
